@@ -238,8 +238,12 @@ Inductive op :=
 | ENumTags                              (* dynamic.num_tags() *)
 | EGetTag (n : Z)                       (* dynamic.get_tag(n) *)
 | ESectionTyped (n : Z) (ty : Z)        (* elffile.get_section(n, type=(<the type named ty>,)) *)
-| RefetchDwarf.                         (* elffile.get_dwarf_info() once more on the ELFFile the DWARFInfo in use came
+| RefetchDwarf                          (* elffile.get_dwarf_info() once more on the ELFFile the DWARFInfo in use came
                                            from; the client goes on with the DWARFInfo it already holds *)
+| CUAtFailing (off : Z) (e : err) (c : Z). (* dwarfinfo.get_CU_at(off) at an offset where NO unit starts and where a
+                                           freshly opened object raises e, leaving the .debug_info cursor at c
+                                           (c < 0: the stream is not touched).  Which offsets fail, and how, is a
+                                           matter of the bytes (not modelled): e and c are what a fresh object shows *)
 
 Inductive answer :=
 | AUnit (off pid : Z)                   (* a CompileUnit: cu_offset, header *)
